@@ -225,6 +225,9 @@ type Result struct {
 	Evaluations int64            `json:"evaluations"`
 	Nontrivial  int64            `json:"nontrivial"`
 	Distinct    []string         `json:"distinct"` // hex hashes of distinct non-trivial case signatures
+	// DistinctCounted counts non-trivial cases that are distinct by construction (each point of an exhaustive
+	// enumeration is visited exactly once, by exactly one shard): no hash is kept for them.
+	DistinctCounted int64 `json:"distinct_counted"`
 	Rule        string           `json:"rule"`
 	Samples     []any            `json:"samples"`
 	Observed    map[string]int64 `json:"observed"`
@@ -263,6 +266,18 @@ func (r *Result) Eval(nontrivial bool, signature string) {
 	if nontrivial {
 		r.Nontrivial++
 		r.distinct[Hash64(signature)] = struct{}{}
+	}
+	r.mu.Unlock()
+}
+
+// EvalUnique records one evaluation of a case that is distinct from every other case by construction
+// (a point of an exhaustive enumeration, visited once by one shard): counted, not hashed.
+func (r *Result) EvalUnique(nontrivial bool) {
+	r.mu.Lock()
+	r.Evaluations++
+	if nontrivial {
+		r.Nontrivial++
+		r.DistinctCounted++
 	}
 	r.mu.Unlock()
 }
